@@ -182,13 +182,36 @@ def commit (s : St) (root : Hash) (failAt : Option Nat) (fuel : Nat) : Option Co
 def die (s : St) : St := ⟨[], s.disk⟩
 
 /-- Go's map iteration order is arbitrary: replace the `ext` list of `h` by a
-    permutation of itself (anything else is refused). -/
-def isPermOf (a b : List Hash) : Bool :=
-  a.length == b.length && a.all (fun x => a.count x == b.count x)
+    list with the same members and length (anything else is refused; `ext` has
+    no duplicates because `reference` skips a reference that already exists). -/
+def sameMembers (a b : List Hash) : Bool :=
+  a.length == b.length && a.all (fun x => b.contains x) && b.all (fun x => a.contains x)
 
 def reorderExt (c : Cache) (h : Hash) (ord : List Hash) : Cache :=
   c.map fun kn =>
-    if kn.1 == h && isPermOf ord kn.2.ext then (kn.1, { kn.2 with ext := ord }) else kn
+    if kn.1 == h && sameMembers ord kn.2.ext then (kn.1, { kn.2 with ext := ord }) else kn
+
+/-! ## the state machine the driver executes -/
+
+inductive Op where
+  /-- `hasher.store` / `InsertBlob`: insert, then the leaf callback if the node holds an account leaf -/
+  | store (h : Hash) (n : CNode) (leaf : Option (Hash × Hash))
+  /-- `NodeDatabase.Reference(child, parent)` -/
+  | ref (child parent : Hash)
+  /-- the Go runtime picks an iteration order for `children` -/
+  | reorder (h : Hash) (ord : List Hash)
+  /-- `NodeDatabase.Commit(root)`; `failAt = some k`: the store refuses the (k+1)-th physical write -/
+  | commit (root : Hash) (failAt : Option Nat)
+  /-- process death -/
+  | die
+
+/-- one step; `none` = the Go code panics (nil parent in `reference`) or does not terminate (cyclic cache). -/
+def step (emptyData emptyCode : Hash) (s : St) : Op → Option St
+  | .store h n leaf => (store emptyData emptyCode s.cache h n leaf).map fun c => { s with cache := c }
+  | .ref child parent => (reference s.cache child parent).map fun c => { s with cache := c }
+  | .reorder h ord => some { s with cache := reorderExt s.cache h ord }
+  | .commit root failAt => (commit s root failAt (s.cache.length + 1)).map fun o => o.st
+  | .die => some (die s)
 
 /-! ## readers -/
 
